@@ -767,3 +767,123 @@ Proof.
   - intros a Ha. cbn. destruct (a <? rg s RSP) eqn:E; [|reflexivity].
     apply Z.ltb_lt in E; lia.
 Qed.
+
+(* ------------------------------------------------------------------ *)
+(** * the custom-data carve-out *)
+
+Lemma round16_facts : forall size, 0 < size ->
+  round16 size mod 16 = 0 /\ size <= round16 size /\ 16 <= round16 size.
+Proof.
+  intros size Hs; unfold round16.
+  pose proof (Z.div_mod (size + 15) 16 ltac:(lia)) as Hdm.
+  pose proof (Z.mod_pos_bound (size + 15) 16 ltac:(lia)) as Hmb.
+  split; [apply Z.mod_mul; lia|]. lia.
+Qed.
+
+Lemma scaled_bound : forall c k R, 0 <= k -> 16 <= R -> 0 <= c + 16 * k -> 0 <= c + k * R.
+Proof.
+  intros c k R Hk HR Hc.
+  assert (k * 16 <= k * R) by (apply Z.mul_le_mono_nonneg_l; lia). lia.
+Qed.
+
+Lemma aligned_shift : forall stk c k R, c mod 16 = 0 -> R mod 16 = 0 ->
+  (1 * stk + c + k * R + 0 * 0) mod 16 = stk mod 16.
+Proof.
+  intros stk c k R Hc HR.
+  apply Z.mod_divide in Hc; [|lia]. apply Z.mod_divide in HR; [|lia].
+  destruct Hc as [c' Hc]; destruct HR as [R' HR]; subst c R.
+  replace (1 * stk + c' * 16 + k * (R' * 16) + 0 * 0) with (stk + (c' + k * R') * 16) by lia.
+  apply Z.mod_add; lia.
+Qed.
+
+Lemma lin_eqb_eq : forall a b, lin_eqb a b = true -> a = b.
+Proof.
+  intros [a1 a2 a3 a4] [b1 b2 b3 b4] H; unfold lin_eqb in H; cbn in H.
+  apply andb_prop in H; destruct H as [H H4]. apply andb_prop in H; destruct H as [H H3].
+  apply andb_prop in H; destruct H as [H1 H2].
+  apply Z.eqb_eq in H1; apply Z.eqb_eq in H2; apply Z.eqb_eq in H3; apply Z.eqb_eq in H4.
+  subst; reflexivity.
+Qed.
+
+Lemma ptr_ok_inv : forall p stk size, ptr_ok p = true -> 0 < size ->
+  lin_eval stk size p mod 16 = stk mod 16 /\ lin_eval stk size p + size <= stk + 8.
+Proof.
+  intros [ps pc pr pl] stk size H Hs; unfold ptr_ok in H; cbn [l_stk l_const l_r16 l_size] in H.
+  apply andb_prop in H; destruct H as [H H5]. apply andb_prop in H; destruct H as [H H4].
+  apply andb_prop in H; destruct H as [H H3]. apply andb_prop in H; destruct H as [H1 H2].
+  apply Z.eqb_eq in H1; apply Z.eqb_eq in H2; apply Z.eqb_eq in H3.
+  apply Z.leb_le in H4; apply Z.leb_le in H5. unfold SIZE_WORD_OFF in H5. subst ps pl.
+  destruct (round16_facts size Hs) as [R1 [R2 R3]].
+  unfold lin_eval; cbn [l_stk l_const l_r16 l_size]. split.
+  - replace (0 * size) with (0 * 0) by lia. apply aligned_shift; assumption.
+  - pose proof (scaled_bound (8 - pc) (- (pr + 1)) (round16 size) ltac:(lia) R3 ltac:(lia)).
+    lia.
+Qed.
+
+Lemma top_ok_inv : forall t p stk size, top_ok t p = true -> l_stk p = 1 -> l_size p = 0 -> 0 < size ->
+  lin_eval stk size t mod 16 = stk mod 16 /\
+  lin_eval stk size t <= stk /\ lin_eval stk size t <= lin_eval stk size p.
+Proof.
+  intros [ts tc tr tl] [ps pc pr pl] stk size H Hps Hpl Hs; unfold top_ok in H.
+  cbn [l_stk l_const l_r16 l_size] in *.
+  apply andb_prop in H; destruct H as [H H7]. apply andb_prop in H; destruct H as [H H6].
+  apply andb_prop in H; destruct H as [H H5]. apply andb_prop in H; destruct H as [H H4].
+  apply andb_prop in H; destruct H as [H H3]. apply andb_prop in H; destruct H as [H1 H2].
+  apply Z.eqb_eq in H1; apply Z.eqb_eq in H2; apply Z.eqb_eq in H3.
+  apply Z.leb_le in H4; apply Z.leb_le in H5; apply Z.leb_le in H6; apply Z.leb_le in H7.
+  subst ts tl ps pl.
+  destruct (round16_facts size Hs) as [R1 [R2 R3]].
+  unfold lin_eval; cbn [l_stk l_const l_r16 l_size]. split; [|split].
+  - replace (0 * size) with (0 * 0) by lia. apply aligned_shift; assumption.
+  - pose proof (scaled_bound (- tc) (- tr) (round16 size) ltac:(lia) R3 ltac:(lia)). lia.
+  - pose proof (scaled_bound (pc - tc) (pr - tr) (round16 size) ltac:(lia) R3 ltac:(lia)). lia.
+Qed.
+
+(** For every hint size > 0 and every stack top of the allocator: the hint region
+    [ptr, ptr+size) is the destination of the creation-time copy, ends at or below the block's
+    size word, and starts at or above the stack top handed to myth_make_context_*; the initial rsp
+    of either entry style is 16-aligned and at or below that stack top (for voidcall the word
+    holding the function address too), so every frame of the new thread - they grow down from
+    the initial rsp - lies strictly below the hint region. *)
+Theorem custom_data_disjoint : forall c te tv p eops vops,
+  cd_check c = true ->
+  cd_empty_top c = Some te -> cd_voidcall_top c = Some tv -> cd_ptr c = Some p ->
+  mk_check_empty eops = true -> mk_check_voidcall vops = true ->
+  forall stk size, 0 < size -> stk < W64 ->
+    64 <= lin_eval stk size te -> 64 <= lin_eval stk size tv ->
+    let ptr := lin_eval stk size p in
+    ptr mod 16 = stk mod 16 /\ ptr + size <= stk + 8 /\
+    (exists d n, cd_copy_dst c = Some d /\ cd_copy_len c = Some n /\
+                 lin_eval stk size d = ptr /\ lin_eval stk size n = size) /\
+    (exists sp, m_rsp (mk_run eops (lin_eval stk size te)) = Some sp /\
+                sp mod 16 = 0 /\ sp <= lin_eval stk size te <= ptr /\
+                lin_eval stk size te mod 16 = stk mod 16) /\
+    (exists sp, m_rsp (mk_run vops (lin_eval stk size tv)) = Some sp /\
+                m_func (mk_run vops (lin_eval stk size tv)) = Some sp /\
+                sp mod 16 = 0 /\ sp + 8 <= lin_eval stk size tv <= ptr /\
+                lin_eval stk size tv mod 16 = stk mod 16).
+Proof.
+  intros c te tv p eops vops H Hte Htv Hp He Hv stk size Hs Hstk Hle Hlv ptr.
+  unfold cd_check in H. apply andb_prop in H; destruct H as [_ H].
+  rewrite Hte, Htv, Hp in H.
+  destruct (cd_copy_dst c) as [d|] eqn:Ed; [|discriminate].
+  destruct (cd_copy_len c) as [n|] eqn:En; [|discriminate].
+  apply andb_prop in H; destruct H as [H Hn]. apply andb_prop in H; destruct H as [H Hd].
+  apply andb_prop in H; destruct H as [H Htvok]. apply andb_prop in H; destruct H as [Hpok Hteok].
+  apply lin_eqb_eq in Hd; apply lin_eqb_eq in Hn; subst d n.
+  assert (Hps : l_stk p = 1 /\ l_size p = 0).
+  { unfold ptr_ok in Hpok. repeat (apply andb_prop in Hpok; destruct Hpok as [Hpok ?]).
+    split; apply Z.eqb_eq; assumption. }
+  destruct Hps as [Hps Hpl].
+  destruct (ptr_ok_inv p stk size Hpok Hs) as [P1 P2].
+  destruct (top_ok_inv te p stk size Hteok Hps Hpl Hs) as [E1 [E2 E3]].
+  destruct (top_ok_inv tv p stk size Htvok Hps Hpl Hs) as [V1 [V2 V3]].
+  split; [exact P1|]. split; [exact P2|]. split.
+  - exists p, (mkLin 0 0 0 1). repeat split. unfold lin_eval; cbn [l_stk l_const l_r16 l_size]; ring.
+  - split.
+    + destruct (mk_empty_aligned eops (lin_eval stk size te) He ltac:(lia)) as [sp [S1 [_ [_ [S2 S3]]]]].
+      exists sp. split; [exact S1|]. split; [exact S2|]. split; [fold ptr in E3; lia|exact E1].
+    + destruct (mk_voidcall_aligned vops (lin_eval stk size tv) Hv ltac:(lia)) as [sp [S1 [S1f [_ [S2 [_ [_ S4]]]]]]].
+      exists sp. split; [exact S1|]. split; [exact S1f|]. split; [exact S2|].
+      split; [fold ptr in V3; lia|exact V1].
+Qed.
